@@ -233,6 +233,8 @@ def mk(t):
     if k == "Lazy":
         return C.Lazy(mk(t[1]))
     if k == "Pointer":
+        if len(t) > 3 and t[3] == "root":
+            return C.Pointer(px(t[1]), mk(t[2]), stream=C.this._root._io)
         return C.Pointer(px(t[1]), mk(t[2]))
     if k == "Peek":
         return C.Peek(mk(t[1]))
